@@ -228,7 +228,7 @@ class Gen:
                 d = [dl for dl in v.values() if dl]
                 adv = (d[0] - now // 1_000_000 + r.choice([0, 1, 50])) if d and r.random() < 0.8 else r.choice([1, 100])
                 adv = max(adv, 1)
-                rep = yield "c.lockw %s %d dm %s %d %d %d" % (p, m, k, r.choice(TMO), 3000, adv)
+                rep = yield "c.lockw %s %d dm %s %d %d %d" % (p, m, k, r.choice(TMO), 1000, adv)
                 if rep.startswith("tok"):
                     toks[k].append((rep, p))
                 if v:
